@@ -4,8 +4,12 @@ import JunoModel.C06.ModelFeed
 /-!
 Line-protocol driver for the C06 model (`lake build c06drv`).
 
-A block token is `num:hash:parent:ok` (decimal numbers, `ok` is 0/1; hashes are small ids chosen
-by the harness, 0 = felt.Zero). Chains are written GENESIS FIRST.
+A block token is `num:hash:parent:ok:diff:root` (decimal numbers, `ok` is 0/1; hashes are small ids
+chosen by the harness, 0 = felt.Zero; `diff` = id of the state diff, 0 = empty; `root` = the claimed
+state root in the model's terms, see `roots`; the short form `num:hash:parent:ok` means an empty diff
+and root 0). Chains are written GENESIS FIRST.
+
+  roots D*                the model's state roots after each block of a chain with these diff ids -> `r0,r1,…`
 
   spec-init B*            start the acceptor with this local chain                   -> ok
   served REQ B | latest N H   something the source answered                              -> ok
@@ -19,7 +23,7 @@ by the harness, 0 = felt.Zero). Chains are written GENESIS FIRST.
   rounds K src B* | loc B*   canonical sequential schedule, K rounds, against a stable source
                           -> `<obs>;<obs>;... => chain=<...> reorg=<range|->`
   isrev NEXT (N H | -) loc B*   -> `none` | `some <lpv>`
-  succ B loc B*           -> stored | badNumber | parentMismatch
+  succ B loc B*           -> stored | badNumber | parentMismatch | rootMismatch
   sub64 A B               -> decimal
   feed-init fresh|len     fresh feed model (id scheme; `fresh` is the code)                          -> ok
   feed sub K | feed unsub H | feed send V | feed recv H   one feed operation (K = keep-last 0/1, H = handle)
@@ -41,8 +45,20 @@ def blk? (s : String) : Option Blk :=
     let h ← h.toNat?
     let p ← p.toNat?
     let o ← (if o == "1" then some true else if o == "0" then some false else none)
-    pure ⟨n, h, p, o⟩
+    pure ⟨n, h, p, o, 0, 0⟩
+  | [n, h, p, o, d, r] => do
+    let n ← n.toNat?
+    let h ← h.toNat?
+    let p ← p.toNat?
+    let o ← (if o == "1" then some true else if o == "0" then some false else none)
+    let d ← d.toNat?
+    let r ← r.toNat?
+    pure ⟨n, h, p, o, d, r⟩
   | _ => none
+
+/-- roots after each block of a chain with these diffs (genesis first) -/
+def rootsOf (ds : List Nat) : List Nat :=
+  (ds.foldl (fun (acc : Nat × List Nat) d => let r := rootStep acc.1 d; (r, r :: acc.2)) (0, [])).2.reverse
 
 /-- parse a genesis-first chain into the model's head-first chain -/
 def chain? (ws : List String) : Option Chain := (ws.mapM blk?).map List.reverse
@@ -147,8 +163,13 @@ def stepSpec (cfg : Cfg) (m : Mode) (s : Spec) (line : String) : Spec × String 
   | "succ" :: b :: "loc" :: locW =>
     match blk? b, chain? locW with
     | some b, some loc => (s, match succession loc b with
-        | .stored => "stored" | .badNumber => "badNumber" | .parentMismatch => "parentMismatch")
+        | .stored => "stored" | .badNumber => "badNumber" | .parentMismatch => "parentMismatch"
+        | .rootMismatch => "rootMismatch")
     | _, _ => (s, "bad-op")
+  | "roots" :: ds =>
+    match ds.mapM String.toNat? with
+    | some ds => (s, if ds.isEmpty then "-" else ",".intercalate ((rootsOf ds).map toString))
+    | none => (s, "bad-op")
   | ["sub64", a, b] =>
     match a.toNat?, b.toNat? with
     | some a, some b => (s, toString (sub64 a b))
@@ -176,7 +197,7 @@ def stepSpec (cfg : Cfg) (m : Mode) (s : Spec) (line : String) : Spec × String 
     -- continue after a store the harness has already recorded as unverified
     match n.toNat?, h.toNat?, p.toNat? with
     | some n, some h, some p =>
-      ({ s with chain := ⟨n, h, p, false⟩ :: s.chain, pending := [],
+      ({ s with chain := ⟨n, h, p, false, 0, stateRoot s.chain⟩ :: s.chain, pending := [],
                 owed := s.owed ++ reorgObs (rangeOf s.pending) ++ [Obs.newHead n h] }, "ok")
     | _, _, _ => (s, "bad-op")
   | ws =>
